@@ -5181,6 +5181,10 @@ class PyCdlib:
                     num_bytes_to_remove += parent.get_data_length()
                     if parent.ptr is not None:
                         num_bytes_to_remove += self._remove_from_ptr_size(parent.ptr)
+                    if parent is self._rr_moved_record:
+                        # The relocation directory is gone; the next deep
+                        # directory has to create a new one.
+                        self._rr_moved_record = dr.DirectoryRecord()
 
                 cl = child.rock_ridge.moved_to_cl_dr
                 if cl is None:
